@@ -4,7 +4,7 @@ from .lib import *
 
 RULE = ("exhaustive product of the quantifier: versions {0.9,1.0,1.1,2,3} x 9 standard methods x Host {none, one, two original, "
         "non-text, one original + one added} x Content-Length {none,'5','0',two,'-1','abc','+5',non-text, 2^64} x Transfer-Encoding "
-        "{none, chunked, non-text} x send-body-despite-method x API {flow, Call::without_body, Call::with_body}; every script writes "
+        "{none, chunked, non-text} x send-body-despite-method x API {flow, flow with Flow::headers_map calls interleaved, Call::without_body, Call::with_body}; every script writes "
         "twice (tiny and large buffer), asks readiness and tries to advance. both tiers enumerate the whole product. "
         "non-trivial = the first write was refused, or accepted with bytes emitted; distinct = distinct configurations")
 TRUSTED_BASE = COMMON_TRUSTED_BASE
@@ -46,7 +46,7 @@ def config_invalid(version, method, host, cl, te, despite, api):
     return False
 
 
-def build(version, method, host, cl, te, despite, api):
+def build(version, method, host, cl, te, despite, api, hm=False):
     headers = []
     added = []
     if host == "one":
@@ -77,12 +77,17 @@ def build(version, method, host, cl, te, despite, api):
             ops.append("header %s %s" % (hx(k), hx(v)))
         if despite:
             ops.append("despite")
-        ops += ["proceed", "write_head #7", "q_can_proceed", "write_head #4096", "q_can_proceed", "write_head #4096", "proceed"]
+        if hm:
+            # Flow<SendRequest>::headers_map is the other entry point that runs the analysis: it must refuse what a write refuses
+            ops += ["proceed", "headers_map", "write_head #7", "q_can_proceed", "headers_map", "write_head #4096", "q_can_proceed", "write_head #4096",
+                    "headers_map", "proceed"]
+        else:
+            ops += ["proceed", "write_head #7", "q_can_proceed", "write_head #4096", "q_can_proceed", "write_head #4096", "proceed"]
     elif api == "without":
         ops = ["call_without " + args, "write_head #7", "q_is_finished", "write_head #4096", "q_is_finished", "write_head #4096"]
     else:
         ops = ["call_with " + args, "write_body x #7", "q_is_finished", "write_body x #4096", "q_is_finished", "write_body x #4096"]
-    return {"ops": ops, "meta": {"config": [version, method, host, cl, te, despite, api]}}
+    return {"ops": ops, "meta": {"config": [version, method, host, cl, te, despite, api], "hm": hm}}
 
 
 def generate(rng, tier, mult):
@@ -91,6 +96,8 @@ def generate(rng, tier, mult):
         if api != "flow" and (despite or host == "orig+added"):
             continue
         out.append(build(version, method, host, cl, te, despite, api))
+        if api == "flow":
+            out.append(build(version, method, host, cl, te, despite, api, hm=True))
     return out
 
 
@@ -117,6 +124,12 @@ def oracle(script, obs):
         return ["panic in %s" % cfg]
     writes = [(op, o) for op, o in zip(ops, obs) if op.startswith("write_")]
     queries = [(op, o) for op, o in zip(ops, obs) if op.startswith("q_")]
+    maps = [(op, o) for op, o in zip(ops, obs) if op == "headers_map"]
+    for op, o in maps:
+        if invalid and not o.startswith("err"):
+            return ["invalid request %s: headers_map did not refuse it: %s" % (cfg, o[:60])]
+        if not invalid and not o.startswith("#"):
+            return ["valid request %s: headers_map failed: %s" % (cfg, o[:60])]
     if invalid:
         for op, o in writes:
             if not o.startswith("err"):
